@@ -1,5 +1,6 @@
 import LdkModel.Driver.Util
 import LdkModel.Model.Channel
+import LdkModel.Proofs.Channel.Guarded
 import LdkModel.Model.MonGate
 import LdkModel.Model.TxBuilder
 namespace Ldk.Driver
